@@ -6,7 +6,7 @@ THEOREMS = ["Props.C15." + t for t in [
     "schema_agrees", "schema_ok", "const_value_type_numbering", "requiredness_strings", "uuid_key_agrees",
     "describe_faithful_partial", "describe_loses_include", "describe_loses_namespace", "annotations_keep_all_values",
     "const_value_faithful", "type_expr_faithful",
-    "descriptor_roundtrip", "descriptor_wire_determines", "descriptor_welltyped",
+    "welltyped_check_sound", "descriptor_roundtrip",
     "register_closed", "lookup_finds_partial", "lookup_collision_witness", "field_lookup_finds",
     "const_type_unregistered", "gotype_bijection_partial", "gotype_alias_witness"]]
 
